@@ -257,7 +257,11 @@ func c06Scenario(c *Ctx) {
 			default: // reimbursed: plain sender, plain payer
 				fi := c.Draw("gen", 4)
 				from = U[2+fi]
-				payer := U[2+(fi+1+c.Draw("gen", 3))%4] // always someone else
+				payer := U[2+(fi+1+c.Draw("gen", 3))%4] // usually someone else
+				if c.Draw("selfpay", 5) == 4 {
+					payer = from // the reimbursement flow used by the sender for itself: both roles signed by one key
+					c.Fault("reimbursed_tx_paid_by_its_own_sender")
+				}
 				tx := types.NewReimbursementTransaction(from.Addr, to, payer.Addr, amt, nil, params.OrdinaryTx, p.ChainID, uint64(now+600), "", msg())
 				s1, err := types.MakeReimbursementTxSigner().SignTx(tx, from.Key)
 				if err != nil {
@@ -312,10 +316,17 @@ func c06Scenario(c *Ctx) {
 			for _, tx := range txs {
 				fl := tx.VerifFields()
 				effective++
+				// which flow the statement's rules put this transaction in: with payer signatures attached the sender
+				// authorises the content WITHOUT the gas terms (reimbursement hash) and the payer authorises the gas
+				// terms, also when both are the same account; without them the sender authorises everything
 				payerOther := fl.GasPayer != nil && *fl.GasPayer != fl.From
+				reimbFlow := len(fl.GasPayerSigs) > 0
 				roles := []string{"sender"}
 				keys := []string{contentKey(fl, true)}
-				if payerOther {
+				if reimbFlow {
+					roles = []string{"sender-reimb"}
+					keys = []string{contentKey(fl, false)}
+				} else if payerOther {
 					roles = append(roles, "sender-reimb")
 					keys = append(keys, contentKey(fl, false))
 				}
@@ -336,10 +347,14 @@ func c06Scenario(c *Ctx) {
 					c.Fail("C06/unauthorised/sender/"+lab, "%s block %d: transaction (type %d from %s amount %s msg %q, %d sigs) took effect but %s; variant: %s", how, b.Height(), fl.Type, fl.From.Hex()[:12], fl.Amount, fl.Message, len(fl.Sigs), why, lab)
 					return false
 				}
-				if payerOther {
-					if ok, why := ledger.authorised(fl.GasPayerSigs, []string{"payer"}, []string{payerKey(fl)}, *fl.GasPayer, cfgOf[*fl.GasPayer]); !ok {
+				if payerOther || reimbFlow {
+					payerAddr := fl.From
+					if fl.GasPayer != nil {
+						payerAddr = *fl.GasPayer
+					}
+					if ok, why := ledger.authorised(fl.GasPayerSigs, []string{"payer"}, []string{payerKey(fl)}, payerAddr, cfgOf[payerAddr]); !ok {
 						lab := c06LabelOf(vars, tx)
-						c.Fail("C06/unauthorised/gas-payer/"+lab, "%s block %d: transaction (from %s, gas payer %s, price %s limit %d) took effect but the payer did not authorise these gas terms: %s; variant: %s", how, b.Height(), fl.From.Hex()[:12], fl.GasPayer.Hex()[:12], fl.GasPrice, fl.GasLimit, why, lab)
+						c.Fail("C06/unauthorised/gas-payer/"+lab, "%s block %d: transaction (from %s, gas payer %s, price %s limit %d) took effect but the payer did not authorise these gas terms: %s; variant: %s", how, b.Height(), fl.From.Hex()[:12], payerAddr.Hex()[:12], fl.GasPrice, fl.GasLimit, why, lab)
 						return false
 					}
 				}
@@ -407,9 +422,21 @@ func c06Derive(c *Ctx, net *Net, h *types.Transaction, outsider *keyInfo) *c06Va
 	if c.Draw("nonce2", 8) == 7 {
 		k = 100
 	}
+	if c.Draw("v27", 10) == 9 {
+		k = 101
+	}
 	lab := ""
 	sigOnly := false
 	switch k {
+	case 101:
+		// the recovery byte written the Ethereum way (27/28 instead of 0/1): other bytes, other transaction hash
+		if len(f.Sigs) == 0 || f.Sigs[0][64] > 1 {
+			return nil
+		}
+		f.Sigs[0] = common.CopyBytes(f.Sigs[0])
+		f.Sigs[0][64] += 27
+		lab = "recovery-byte-plus-27"
+		sigOnly = true
 	case 100:
 		// one signer signs the same content a second time with another nonce: other signature bytes, same
 		// signer. Honest tooling never does it (signing is deterministic); the bytes are not a repeat.
